@@ -11,6 +11,7 @@ import (
 	"os"
 	"strconv"
 	"strings"
+	"sync"
 	"testing"
 )
 
@@ -49,11 +50,16 @@ type vctx struct {
 	nshards int
 	work    string
 	t       *testing.T
+	mu      sync.Mutex
 }
 
-func (c *vctx) thorough() bool { return c.tier == "thorough" }
+func (c *vctx) thorough() bool  { return c.tier == "thorough" }
 func (c *vctx) mine(i int) bool { return i%c.nshards == c.shard }
-func (c *vctx) emit(cmd, real string) { fmt.Fprintf(c.w, "%s => %s\n", cmd, real) }
+func (c *vctx) emit(cmd, real string) {
+	c.mu.Lock()
+	fmt.Fprintf(c.w, "%s => %s\n", cmd, real)
+	c.mu.Unlock()
+}
 
 func vxb(b []byte) string { return "x" + hex.EncodeToString(b) }
 func vxs(s string) string { return "x" + hex.EncodeToString([]byte(s)) }
